@@ -804,6 +804,11 @@ func (t *blockTree) parseStartingMarkers(line string, newParagraph bool) (string
 		}
 
 		m := itemStartingMarkerRegexp.FindStringSubmatch(line)
+		if m != nil && !newParagraph && isBlankLine(line[len(m[0]):]) {
+			// An empty list item cannot interrupt a paragraph, even when the
+			// marker is followed by spaces.
+			m = nil
+		}
 		if m == nil && newParagraph {
 			m = itemStartingMarkerBlankLineRegexp.FindStringSubmatch(line)
 		}
